@@ -149,19 +149,25 @@ def run_spec(spec):
         cls = build(spec)
     except InvalidDefinition:
         return "skip"
-    d = check_graph(spec, cls, DotGraphMachine(cls).get_graph(), None)
-    if d:
-        return {"what": "class diagram: " + d}
-    sm = cls()
-    for step, ev in enumerate([None] + list(spec["walk"])):
-        if ev is not None:
-            try:
-                sm.send(ev)
-            except Exception:  # noqa: BLE001
-                pass
-        d = check_graph(spec, sm, DotGraphMachine(sm).get_graph(), sm.current_state.id)
+    try:
+        d = check_graph(spec, cls, DotGraphMachine(cls).get_graph(), None)
         if d:
-            return {"what": f"instance diagram after {step} events (current state {sm.current_state.id}, value {sm.current_state_value!r}): " + d}
+            return {"what": "class diagram: " + d}
+        sm = cls()
+        for step, ev in enumerate([None] + list(spec["walk"])):
+            if ev is not None:
+                try:
+                    sm.send(ev)
+                except Exception:  # noqa: BLE001
+                    pass
+            # both ways of asking for an instance's picture: the documented DotGraphMachine(sm) and sm._graph()
+            for how, graph in (("DotGraphMachine(sm)", DotGraphMachine(sm).get_graph()), ("sm._graph()", sm._graph())):
+                d = check_graph(spec, sm, graph, sm.current_state.id)
+                if d:
+                    return {"what": f"instance diagram via {how} after {step} events (current state {sm.current_state.id}, "
+                                    f"value {sm.current_state_value!r}): " + d}
+    except Exception as e:  # noqa: BLE001
+        return {"what": f"drawing raised {type(e).__name__}: {str(e)[:160]}"}
     return None
 
 
